@@ -232,7 +232,7 @@ func (m *Manager) CreateAllocation( // nolint: cyclop
 
 	m.log.Debugf("Listening on relay address: %s", alloc.RelayAddr)
 
-	alloc.lifetimeTimer = time.AfterFunc(lifetime, func() {
+	alloc.startLifetime(lifetime, func() {
 		m.deleteAllocationOf(alloc)
 	})
 
